@@ -12,6 +12,7 @@ SPECIAL = ["", "{5}", "{5+}", "{5+}x", "{0+}", "{1+}\r\nx", "a" * 1025, 'a"\r\nL
            "cafe\u0301", "\u212b", "\u2126m", "\uff02x\uff3c"]  # decomposed / singleton / full-width look-alikes: names are octets  # lone surrogates cannot be encoded: must be refused before writing
 SIZES = [0, 1, 10, 2 ** 32 - 1, 2 ** 32, -1]
 
+IDLE_GAPS = [60, 3600, 10 ** 5, 10 ** 9]  # virtual seconds of silence before the call (minute, hour, day, decades)
 VERB = {"havespace": "HAVESPACE", "getscript": "GETSCRIPT", "putscript": "PUTSCRIPT", "checkscript": "CHECKSCRIPT",
         "deletescript": "DELETESCRIPT", "renamescript": "RENAMESCRIPT", "setactive": "SETACTIVE", "listscripts": "LISTSCRIPTS",
         "capability": "CAPABILITY", "logout": "LOGOUT"}
@@ -109,6 +110,7 @@ def judge(op, expected, data, o):
 def op_task(t):
     op, maxlen = t[:2]
     tls = len(t) > 2 and t[2]  # the same calls on a session that went through STARTTLS: the command must be on the TLS channel
+    gap = t[3] if len(t) > 3 else 0  # virtual seconds that pass between connect() and the call (the clock seam of mc/wire.py)
     viols = []
     n = 0
     distinct = set()
@@ -123,6 +125,7 @@ def op_task(t):
             # fresh session per call: a hostile value may desynchronise the stream
             srv = refms.RefServer(store={"a": b"keep;\r\n"}, active="a", version=True, starttls=tls)
             s = wire.open_session(srv, starttls=tls)
+            s.idle_gap = gap
             m = wire.mark(s)
             plain_before = len(s.plain.written)
             o = s.call(op, *args)
@@ -135,9 +138,9 @@ def op_task(t):
                 bad = ("protocol-violation", srv.violations[0])
             distinct.add((classify_value(val), bad[0] if bad else None, o.kind))
             if bad:
-                viols.append({"property": "C08", "engine": "wire", "signature": ["C08", op + ("/tls" if tls else ""), classify_value(val), bad[0]],
+                viols.append({"property": "C08", "engine": "wire", "signature": ["C08", op + ("/tls" if tls else "") + ("/idle" if gap else ""), classify_value(val), bad[0]],
                               "what": "%s%r wrote %r: %s" % (op, args if len(repr(args)) < 80 else "(long)", data[:80], bad[1]),
-                              "case": {"op": op, "tls": bool(tls), "args": [a if isinstance(a, int) else a for a in args]},
+                              "case": {"op": op, "tls": bool(tls), "gap": gap, "args": [a if isinstance(a, int) else a for a in args]},
                               "witness": "%s%r" % (op, args if len(repr(args)) < 120 else "(1025-char name)"), "observed": repr(data[:100])})
             elif sample is None and '"' in val and o.kind == "ret":
                 sample = {"call": "%s%r" % (op, args), "wire": data.decode("utf-8", "replace")}
@@ -309,7 +312,8 @@ def sweep_task(t):
 def run(tier, seed):
     maxlen = 3 if tier == "quick" else 4
     ops = ["havespace", "getscript", "putscript", "checkscript", "deletescript", "renamescript", "setactive", "listscripts", "capability"]
-    res = pool.run_tasks("checks.c08:op_task", [(op, maxlen) for op in ops] + [(op, maxlen, True) for op in ops])
+    res = pool.run_tasks("checks.c08:op_task", [(op, maxlen) for op in ops] + [(op, maxlen, True) for op in ops]
+                         + [(op, maxlen - 1, False, gap) for op in ops for gap in IDLE_GAPS])
     top = 9000 if tier == "quick" else 70000
     sw = []
     for op in ("putscript", "checkscript", "deletescript", "deletescript-escaped"):
@@ -353,6 +357,7 @@ def replay(payload):
     tls = bool(c.get("tls"))
     srv = refms.RefServer(store={"a": b"keep;\r\n"}, active="a", version=True, starttls=tls)
     s = wire.open_session(srv, starttls=tls)
+    s.idle_gap = c.get("gap", 0)
     m = wire.mark(s)
     plain_before = len(s.plain.written)
     o = s.call(op, *args)
